@@ -1000,6 +1000,9 @@ class TorConfig:
             defaults = {}
             for line in defaults_raw.split('\n')[1:]:
                 k, v = line.split(' ', 1)
+                # option names are case-insensitive; key the default
+                # the way this option is already spelled here
+                k = self._find_real_name(k)
                 if k in defaults:
                     if isinstance(defaults[k], list):
                         defaults[k].append(v)
@@ -1046,7 +1049,7 @@ class TorConfig:
                 initial = []
                 if v == DEFAULT_VALUE or v == 'auto':
                     try:
-                        initial = defaults[name[:-5]]
+                        initial = defaults[rn]
                         if not isinstance(initial, list):
                             initial = [initial]
                     except KeyError:
